@@ -36,6 +36,9 @@ pub enum WOp {
     /// 1 DisconnectAck, 2 HandshakeError, 3 SYN-ACK, 4 handshake ACK (the last three with the given, i.e. a wrong,
     /// nonce), 5 empty data frame, 6 keepalive sync, 7 empty ack frame
     Stray { c: u8, to_server: bool, kind: u8, nonce: u32 },
+    /// the application behind client c drops its Client object and connects again from the same local address
+    /// (a program bound to a fixed port that restarts, or gives up on a connection and tries again)
+    Reconnect { c: u8 },
 }
 
 #[derive(Clone, Debug, Serialize, Deserialize)]
@@ -73,6 +76,8 @@ pub struct WorldLog {
     pub max_step_gap_us: u64,
     pub end_us: u64,
     pub stray_count: u32,
+    /// clients that connected again from the same address
+    pub reconnects: u32,
 }
 
 #[derive(Clone, Debug)]
@@ -92,6 +97,8 @@ pub struct ScriptParams {
     pub vary_server_limits: bool,
     /// weight of stray / spoofed frames
     pub stray_weight: u32,
+    /// weight of clients that connect again from the same address
+    pub reconnect_weight: u32,
 }
 
 pub fn fate_strategy(faults: bool) -> BoxedStrategy<Fate> {
@@ -147,6 +154,7 @@ pub fn wop_strategy(p: &ScriptParams) -> BoxedStrategy<WOp> {
     options.push((p.replay_weight, (0..nc, any::<bool>(), any::<u16>()).prop_map(|(c, to_server, sel)| WOp::ReplayControl { c, to_server, sel }).boxed()));
     options.push((p.stray_weight, (0..nc, any::<bool>(), 0u8..8, any::<u32>()).prop_map(|(c, to_server, kind, nonce)| WOp::Stray { c, to_server, kind, nonce }).boxed()));
     options.push((if p.faults { 2 } else { 0 }, (0..nc, 1u8..4, prop_oneof![3 => 10u32..2_000, 2 => 2_000u32..30_000, 1 => Just(10_000_000u32)]).prop_map(|(c, dirs, len_ms)| WOp::Blackout { c, dirs, len_ms }).boxed()));
+    options.push((p.reconnect_weight, (0..nc).prop_map(|c| WOp::Reconnect { c }).boxed()));
     options.retain(|o| o.0 > 0);
     proptest::strategy::Union::new_weighted(options)
     .boxed()
@@ -196,6 +204,7 @@ pub fn run_script(c: &WCase) -> WorldLog {
     let mut last_step_client: Vec<u64> = vec![0; n];
     let mut max_gap = 0u64;
     let mut stray_count = 0u32;
+    let mut reconnects = 0u32;
 
     let start_clients = |w: &mut World, ci: &mut Vec<Option<usize>>, tick_no: u16| {
         for (k, spec) in c.clients.iter().enumerate() {
@@ -356,6 +365,16 @@ pub fn run_script(c: &WCase) -> WorldLog {
                     stray_count += 1;
                 }
             }
+            WOp::Reconnect { c: k } => {
+                let k = *k as usize % n;
+                if let Some(i) = ci[k] {
+                    let spec = &c.clients[k];
+                    let link = LinkState { latency_us: spec.latency_us, fates: spec.fates.clone(), ..LinkState::default() };
+                    ci[k] = Some(w.reincarnate_client(i, &spec.cfg, link));
+                    last_step_client[k] = w.now_us;
+                    reconnects += 1;
+                }
+            }
             WOp::Blackout { c: k, dirs, len_ms } => {
                 let k = *k as usize % n;
                 if let Some(i) = ci[k] {
@@ -376,7 +395,7 @@ pub fn run_script(c: &WCase) -> WorldLog {
         start_clients(&mut w, &mut ci, u16::MAX);
     }
     let end_us = w.now_us;
-    WorldLog { world: w, api, ci, max_step_gap_us: max_gap, end_us, stray_count }
+    WorldLog { world: w, api, ci, max_step_gap_us: max_gap, end_us, stray_count, reconnects }
 }
 
 pub fn client_addr(log: &WorldLog, k: usize) -> Option<SocketAddr> {
